@@ -4,6 +4,7 @@ use std::fmt::Write as _;
 
 pub mod c01;
 pub mod c10;
+pub mod c11;
 pub mod c12;
 pub mod common;
 pub mod profiles;
